@@ -45,12 +45,28 @@ def gen_c01_sites():
     rows.append(('peLoopOrder', 'List String', '["init2tol", "useTolSmall", "while", "save", "discount", "computeQ", "dot", "absmax"]', rel, ln[0]))
     rel = 'include/AIToolbox/MDP/Algorithms/LinearProgramming.hpp'
     s = E.strip_comments(E.read(rel))
-    ln = _order(s, [r'lp\.row\.fill\s*\(\s*1\.0\s*/\s*S\s*\)\s*;', r'lp\.setObjective\s*\(\s*false\s*\)\s*;',
+    ln = _order(s, [r'LP\s+lp\s*\(\s*S\s*\)\s*;', r'lp\.resize\s*\(\s*S\s*\*\s*A\s*\)\s*;',
+                    r'lp\.row\.fill\s*\(\s*1\.0\s*/\s*S\s*\)\s*;', r'lp\.setObjective\s*\(\s*false\s*\)\s*;',
+                    r'for\s*\(\s*size_t\s+s\s*=\s*0\s*;\s*s\s*<\s*S\s*;\s*\+\+s\s*\)', r'lp\.setUnbounded\s*\(\s*s\s*\)\s*;',
+                    r'for\s*\(\s*size_t\s+a\s*=\s*0\s*;\s*a\s*<\s*A\s*;\s*\+\+a\s*\)',
                     r'lp\.row\s*=\s*-model\.getDiscount\(\)\s*\*\s*model\.getTransitionFunction\(a\)\.row\(s\)\s*;',
+                    r'for\s*\(\s*size_t\s+s1\s*=\s*0\s*;\s*s1\s*<\s*S\s*;\s*\+\+s1\s*\)',
                     r'lp\.row\[s1\]\s*=\s*-model\.getDiscount\(\)\s*\*\s*model\.getTransitionProbability\(s,\s*a,\s*s1\)\s*;',
                     r'lp\.row\[s\]\s*\+=\s*1\.0\s*;', r'lp\.pushRow\s*\(\s*LP::Constraint::GreaterEqual\s*,\s*rhs\s*\)\s*;',
-                    r'computeQFunction\s*\(\s*model\s*,\s*model\.getDiscount\(\)\s*\*\s*\(\*values\)\s*,\s*ir\s*\)'], rel)
-    rows.append(('lpSites', 'List String', '["objUniform", "minimise", "rowEigen", "rowGeneric", "plusOne", "GE", "assembleQ"]', rel, ln[0]))
+                    r'auto\s+values\s*=\s*lp\.solve\s*\(\s*S\s*\)\s*;', r'if\s*\(\s*!values\s*\)\s*throw\s+std::runtime_error',
+                    r'computeQFunction\s*\(\s*model\s*,\s*model\.getDiscount\(\)\s*\*\s*\(\*values\)\s*,\s*ir\s*\)',
+                    r'q\.row\(s\)\.maxCoeff\s*\(\s*&v\.actions\[s\]\s*\)\s*;'], rel)
+    # the buffer is written nowhere else: exactly one `lp.row =`, one `lp.row[s1] =`, one `lp.row[s] +=`, one fill
+    if len(re.findall(r'lp\.row\b', s)) != 4:
+        raise E.ExtractError(f'{rel}: lp.row is touched at an unexpected number of sites')
+    rows.append(('lpSites', 'List String', '["lpOfS", "resizeSA", "objUniform", "minimise", "loopS", "unbounded", "loopA", "rowEigen", "loopS1", "rowGeneric", "plusOne", "GE", "solveS", "throwIfNone", "assembleQ", "argmaxRows"]', rel, ln[0]))
+    # PolicyIteration relies on QGreedyPolicy seeing later assignments to `qfun`: QPolicyInterface keeps a reference, not a copy
+    relq = 'include/AIToolbox/MDP/Policies/QPolicyInterface.hpp'
+    sq = E.strip_comments(E.read(relq))
+    E.find1(r'const\s+QFunction\s*&\s*q_\s*;', sq, 'QPolicyInterface::q_ is a reference')
+    sq2 = E.strip_comments(E.read('src/MDP/Policies/QPolicyInterface.cpp'))
+    E.find1(r'QPolicyInterface::QPolicyInterface\s*\(\s*const\s+QFunction\s*&\s*q\s*\)\s*:\s*q_\s*\(\s*q\s*\)', sq2, 'QPolicyInterface constructor binds q_')
+    rows.append(('qPolicyHoldsReference', 'Bool', 'true', relq, 1))
     rel = 'src/MDP/Utils.cpp'
     s = E.strip_comments(E.read(rel))
     m = E.find1(r'for\s*\(\s*size_t\s+s\s*=\s*0\s*;\s*s\s*<\s*actions\.size\(\)\s*;\s*\+\+s\s*\)\s*values\(s\)\s*=\s*q\.row\(s\)\.maxCoeff\(&actions\[s\]\)\s*;', s, 'bellmanOperatorInplace loop')
